@@ -29,13 +29,24 @@ def sh(cmd, cwd=None, env=None, timeout=1800):
     return p.returncode, p.stdout
 
 
-def run_suite(wt, tgt):
+def run_suite(wt, tgt, retry=True):
+    """full suite inside a private network namespace (the integration tests bind fixed UDP ports);
+    tests that fail are re-run alone (they are timing-sensitive under load) before being believed"""
     env = dict(os.environ, CARGO_TARGET_DIR=tgt, CARGO_NET_OFFLINE="true", RUST_BACKTRACE="0")
-    rc, out = sh(["cargo", "test", "--offline", "--no-fail-fast", "--", "--test-threads", "8"], cwd=wt, env=env)
+    ns = ["unshare", "-rn", "sh", "-c"]
+    rc, out = sh(ns + ["ip link set lo up; cargo test --offline --no-fail-fast -- --test-threads 8"], cwd=wt, env=env)
     res = {}
     for m in re.finditer(r"^test (\S+) \.\.\. (ok|FAILED|ignored)", out, re.M):
         res[m.group(1)] = m.group(2)
     built = "error: could not compile" not in out and "error[E" not in out
+    if retry and built:
+        for t, v in list(res.items()):
+            if v == "FAILED" and "::" not in t:  # integration tests have bare names
+                for _ in range(3):
+                    rc2, o2 = sh(ns + ["ip link set lo up; cargo test --offline --tests %s -- --exact --test-threads 1" % t], cwd=wt, env=env)
+                    if re.search(r"^test %s \.\.\. ok" % re.escape(t), o2, re.M):
+                        res[t] = "ok"
+                        break
     return built, res, out
 
 
